@@ -33,12 +33,22 @@ def o_qnl(inp):
     pre, _ = abs_timed(sorted(a, key=lambda m: (m[2], m[1], m[0], -1 if m[3] is None else m[3])))
     if wf_violations(pre) or any(on >= off for (_, _, on, off, _) in notes_of(pre)):
         return [("~skip:not-well-formed", "")]
-    s = P.mk_abs(a)
-    try:
-        s.quantise_note_lengths(list(values), do_not_extend=dne)
-    except Exception as e:
-        return [("raises", f"{type(e).__name__}: {e}")]
-    out = [from_real(m) for m in s._messages]
+    if inp.get("state"):
+        # through the Sequence wrapper, from one of its freshness states; the result is read through the RELATIVE view of a copy,
+        # i.e. what save / normalise / Bar / to_midi_track would see afterwards
+        s_ = P.seq_in_state(G.abs_to_rel(a), inp["state"])
+        try:
+            s_.quantise_note_lengths(list(values), do_not_extend=dne)
+        except Exception as e:
+            return [("raises", f"{type(e).__name__}: {e}")]
+        out = [from_real(m) for m in P.seq_of_rel(P.content_of(s_)).abs._messages]
+    else:
+        s = P.mk_abs(a)
+        try:
+            s.quantise_note_lengths(list(values), do_not_extend=dne)
+        except Exception as e:
+            return [("raises", f"{type(e).__name__}: {e}")]
+        out = [from_real(m) for m in s._messages]
     tin = pre          # expected notes are read off the canonical order, whatever order the messages were entered in
     tout = [(m[TIME], m) for m in out if m[TY] != INTERNAL]
     fails = []
@@ -46,7 +56,13 @@ def o_qnl(inp):
         return [("no-overlap", f"output notes not well-formed: {wf_violations(tout)[:3]}")]
     nin = notes_of(tin)
     nout = notes_of(tout)
-    if non_note(tin) != non_note(tout) or [m for m in a if m[TY] == INTERNAL] != [m for m in out if m[TY] == INTERNAL]:
+    if inp.get("state"):
+        # read back through the relative view: the cap message is re-created (its channel is inferred, it is dropped when another
+        # message sits on the last tick) — it is not an event; what must be unchanged is every non-note event
+        same_cap = True
+    else:
+        same_cap = [m for m in a if m[TY] == INTERNAL] == [m for m in out if m[TY] == INTERNAL]
+    if non_note(tin) != non_note(tout) or not same_cap:
         fails.append(("others", "a non-note event changed"))
     by_key = {}
     for n in nin:
@@ -103,6 +119,9 @@ def generate(ctx):
         dne = rng.random() < 0.5
         ctx.case((a, values, dne), any(n[3] not in values for n in notes))
         ctx.check("qnl", {"abs": a, "values": values, "dne": dne})
+        if i % 3 == 0:
+            ctx.count("wrapper-states")
+            ctx.check("qnl", {"abs": a, "values": values, "dne": dne, "state": rng.choice(P.SEQ_STATES)})
         ctx.corr("qnl", P.op_qnl(values, 24, dne, a))
         ctx.corr("pairings", P.op_pairings([6, 7], 24, True, a))
         ctx.count("dne" if dne else "extend")
